@@ -8,25 +8,33 @@ def load(pid):
     mod = importlib.import_module("harness.props." + pid.lower())
     return mod.CHECK()
 
+def claimed():
+    import json
+    try:
+        m = json.load(open(os.path.join(core.ROOT, "MANIFEST.json")))
+        return [c["property_id"] for c in m.get("checks", [])]
+    except Exception:
+        return ALL
+
 def setup():
-    """Regenerate Gen/, build every .vo (full build), build every driver."""
+    """Regenerate Gen/, build the model + proof cone of every claimed property (full .vo), build every driver."""
     problems = core.gate()
     if problems:
         print("gate:", problems); return 2
-    mods = []
-    checks = []
-    for pid in ALL:
+    mods, checks, targets = [], [], []
+    for pid in claimed():
         try:
             c = load(pid)
         except ModuleNotFoundError:
             continue
         checks.append(c)
         mods += [m for m in c.gen_modules if m not in mods]
+        targets += list(c.model_targets) + [c.prop_file[:-2] + ".vo"]
     with core.CoqLock():
         rc, out = core.regen(mods)
         print("py2v rc", rc, out[-300:])
         core.ensure_makefile()
-        ok, out = core.coq_make([], timeout=3000)
+        ok, out = core.coq_make(targets, timeout=3000)
         print(out[-1500:])
         if not ok:
             print("setup: coq build failed"); return 2
